@@ -1,7 +1,21 @@
 (* Check functions used by the per-run case files of the numeric properties. *)
-From CV Require Export Num.WordModel.
+From CV Require Export Num.IntModel.
 
 (* (bits, op, a, b, observed) *)
 Definition check_word (c : Z * binop * Z * Z * res Z) : bool :=
   let '(n, o, a, b, obs) := c in
   res_eqb Z.eqb (word_model n o a b) obs.
+
+(* (kind, op, a, b, observed) *)
+Definition check_checked (c : ikind * binop * Z * Z * res Z) : bool :=
+  let '(k, o, a, b, obs) := c in
+  res_eqb Z.eqb (checked_model k o a b) obs.
+
+(* (kind, a, observed) *)
+Definition check_neg (c : ikind * Z * res Z) : bool :=
+  let '(k, a, obs) := c in
+  res_eqb Z.eqb (neg_model k a) obs.
+
+Definition check_sat (c : ikind * binop * Z * Z * res Z) : bool :=
+  let '(k, o, a, b, obs) := c in
+  res_eqb Z.eqb (sat_model k o a b) obs.
